@@ -418,7 +418,7 @@ theorem sideloaded_defines_nothing (len : Int) (ops : List Op) (r : Rec) (hok : 
   rw [List.eq_nil_iff_forall_not_mem]
   intro gid hm
   rw [mem_definition] at hm
-  obtain ⟨g, _, d', ⟨s, hl⟩, hdef, hx⟩ := inv.defsSound _ hm
+  obtain ⟨g, _, d', ⟨s, hl⟩, hdef, hx⟩ := inv.defsSound trivial _ hm
   injection hx with h1 _
   obtain ⟨_, a', ha', hd'⟩ := hl.contained
   obtain ⟨_, _, _, e4⟩ := hok.ids a' ha' a ha d' hd' d hd h1.symm
@@ -502,7 +502,7 @@ theorem get_cds_features_fresh (len : Int) (ops : List Op) (r' : Rec) (hok : ∀
   obtain ⟨r, hr, hs⟩ := run_snoc hrun
   simp only [step, pure, Except.pure] at hs
   injection hs with hs; subst hs
-  exact ⟨r, hr, (InvCore.peekCds (L := liveAfter ops) (ever := opsAreas ops) (run_inv hok hr).cache).2.2⟩
+  exact ⟨r, hr, (InvCore.peekCds (S := True) (L := liveAfter ops) (ever := opsAreas ops) (run_inv hok hr).cache).2.2⟩
 
 /-- `collection.cds_children` after any history returns the collection's current gene list and the current
     contents of its three sections (the dirty flags of the four caches are set whenever they must be) -/
